@@ -8,7 +8,7 @@
     state ([C14_invariant_all_histories]); the Reset / Remove / isolation
     statements are proved from it. *)
 From Gnmi Require Import Base.Prelude CTree.CTreeModel CTree.CTreeProofs Path.PathModel
-  Cache.CacheModel Cache.MultiCache Cache.C14Proofs.
+  Cache.CacheModel Cache.MultiCache Cache.C14Check Cache.C14Proofs.
 Local Open Scope Z_scope.
 
 (** every history from any initial target list reaches a state satisfying the
@@ -137,3 +137,14 @@ Theorem C14_reachable_target : forall cfg names ops name t,
   (forall p v, lookup (t_tree t) p = Some v -> ntgt v = name).
 Proof. exact reachable_target. Qed.
 Print Assumptions C14_reachable_target.
+
+(** soundness of the executable specification used on the implementation's
+    observations (tag 2): [kp_isolation = true] implies the isolation property
+    of the observations *)
+Theorem C14_K_isolation_sound : forall prev o ob t,
+  op_addr o = AOne t -> kp_isolation prev o ob = true ->
+  (forall k a, In (k, a) (o_tgts ob) -> k <> t ->
+     exists b, assoc k prev = Some b /\ tobs_eqb b a = true) /\
+  (forall n, In n (o_feed ob) -> feed_tgt n = t).
+Proof. exact kp_isolation_sound. Qed.
+Print Assumptions C14_K_isolation_sound.
